@@ -141,6 +141,14 @@ def histories(seed=0):
         for x, y in zip(f1, f2):
             h += [(s1, d1, x), (s2, d2, y)]
         out.append((f'interleaved {s1}->{d1} / {s2}->{d2}', h))
+    # many streams at once (24 and 40 sources), round-robin: no stream may disturb another however many there are
+    for nstreams in (24, 40):
+        fs = [frames_of(pay(20, 50 + k), k % 8, 0xFF) for k in range(nstreams)]
+        h = []
+        for j in range(len(fs[0])):
+            for k in range(nstreams):
+                h.append((10 + k, 255, fs[k][j]))
+        out.append((f'interleaved {nstreams} streams round-robin', h))
     # counter wrap: nine consecutive messages on one stream
     h = []
     for k in range(10):
